@@ -234,6 +234,7 @@ def scenarios(api):
     if r[0] == "ok":
         s2 = r[1][0]
         obs["13.getpeername-after-reset"] = attempt(lambda: s2.getpeername())
+        obs["13.shutdown-after-reset"] = attempt(lambda: s2.shutdown(real_socket.SHUT_RDWR))
         obs["13.recv-after-reset"] = attempt(lambda: s2.recv(10))
         s2.close()
     ls.close()
